@@ -27,6 +27,7 @@ type Opts struct {
 	MaxEvents    int    // cap on recorded events (0 = 100000), same meaning as mon.Trace.Max
 	DetectReentry bool  // abort when a rule is re-entered at an offset where it is active
 	Init          int   // >0: the state store starts as mon.InitialState(Init)
+	LRKeepSeeds   bool  // variant used only to classify known finding F06: a finished left-recursive result stays cached for its offset (as pigeon's leader memo does), so its blocks are not run again
 	LR            bool  // left recursion supported: left-recursive rules denote the left-associative iteration
 }
 
@@ -462,6 +463,9 @@ func (it *interp) evalLR(r *gast.Rule, pos int, st *state, h *handler, inv bool)
 	// a later reference at the same offset is evaluated afresh (pure semantics: same match, its
 	// blocks run again, its errors are reported again and de-duplicated)
 	delete(it.seeds, key)
+	if it.o.LRKeepSeeds {
+		it.seeds[key] = cur
+	}
 	if !cur.ok {
 		return false, pos, nil, st
 	}
